@@ -43,7 +43,11 @@ def run(tier, replay=None):
     zc, zm, _, _ = C.emit_and_replay(run, "MC_DateZone", "MC_DateZone.cfg", "c09_zone", ["datezone"], timeout=900, workers=4)
     for m in zm:
         run.mismatch({"kind": m["mismatch"]["what"], "input": m["mismatch"].get("pattern", "")}, m)
-    run.evaluations = len(allc) + len(zc)
+    # ... and the process: histories with fork(), continued in the child
+    fc, fm, _, _ = C.emit_and_replay(run, "MC_DateZone", "MC_DateZone_fork.cfg", "c09_fork", ["datezone"], timeout=900, workers=4)
+    for m in fm:
+        run.mismatch({"kind": m["mismatch"]["what"], "input": m["mismatch"].get("pattern", "")}, m)
+    run.evaluations = len(allc) + len(zc) + len(fc)
     run.nontrivial = sum(1 for c in allc if "{" in c["input"].replace("{{", "").replace("\\{", ""))
     if not run.mismatches and run.nontrivial < 1000:
         raise C.ToolError("vacuous run")
@@ -62,6 +66,7 @@ def run(tier, replay=None):
                        "the colour chosen per level is not compared, only that a style request precedes and a reset "
                        "follows the highlighted group",
                        "zone changes are 4 POSIX TZ values (UTC0, JST-9, IST-5:30, NST3:30) set through the environment; "
-                       "all histories of 5 operations (set zone / build an encoder of one of 4 kinds / encode)",
+                       "all histories of 5 operations (set zone / build an encoder of one of 4 kinds / encode); all histories of 6 operations "
+                       "with up to 2 forks (the history continues in the child) over {P}|{pid} and a local date",
                        "release-profile {R(..)} rendering is replayed in the thorough tier"]
     return run.finish()
